@@ -78,9 +78,9 @@ MANIFEST = {
             "interior-sample hypothesis and for collections; cell_complete beyond the forms in (8). The adequacy of the "
             "specification w.r.t. point-set topology in general remains an explicit assumption (S1, S2), not a theorem. "
             "Translator tie (TRAN): hasDimensions_eq_source — the dims / boundaryDims / isEmptyG clauses of Line, LineString, Polygon, Rect, Triangle, "
-            "MultiPoint, MultiLineString (dimensions, is_empty), MultiPolygon, GeometryCollection (dimensions, the recursive call being dims itself) and "
+            "MultiPoint, MultiLineString (dimensions, is_empty), MultiPolygon, GeometryCollection (dimensions and boundary_dimensions, the recursive calls being dims / boundaryDims) and "
             "isClosedLS equal the terms regenerated from dimensions.rs / geo-types on this run (MultiLineString::boundary_dimensions — an iterator chain "
-            "with sort_by / chunk_by — and GeometryCollection::{boundary_dimensions, is_empty} stay hand-written).",
+            "with sort_by / chunk_by — and GeometryCollection::is_empty stay hand-written).",
     "note": "Trusted: Lean kernel + audited axioms; the harness/generators (sampling); spec adequacy S1/S2. Defects found by this check and repaired in /repo: "
             "Triangle vertical edge (29720670), MultiPolygon shared vertex (5f41a6da), MultiLineString boundary_dimensions mod-2 (17c66966).",
 }
